@@ -514,3 +514,23 @@ def trip_count(init, op, bound, step):
             return d // step
         return None
     return None
+
+
+def const_choices(f, e, depth=0):
+    """the set of integer values expression e can take when it is a constant, a conditional between such expressions or a
+    local read through its single definition; None otherwise"""
+    if e is None or depth > 6:
+        return None
+    e = strip(e)
+    while e.get('k') in ('cast', 'paren', 'temp'):
+        e = strip(e['e'])
+    cv = const_val(e)
+    if cv is not None:
+        return {cv}
+    if e.get('k') == 'cond':
+        a, b = const_choices(f, e['x'], depth + 1), const_choices(f, e['y'], depth + 1)
+        return None if a is None or b is None else a | b
+    if e.get('k') == 'var' and e.get('vk') == 'local':
+        d = single_defs(f).get(e.get('id'))
+        return const_choices(f, d, depth + 1) if d is not None else None
+    return None
